@@ -87,6 +87,17 @@ fn compile_multi<W: Write>(matrix: &[u8], csv_a: &[u8], csv_b: &[u8], w: &mut W,
     if seq == 7 {
         let _ = b.read_conn(&b"1 1\n0 0 7\n0 x\n"[..]);
     }
+    if seq == 8 {
+        // a larger matrix was read before: the real one replaces it completely
+        let mut b2 = DictBuilder::new_system();
+        b2.set_compile_time(std::time::UNIX_EPOCH + std::time::Duration::from_secs(env::FIXED_TIME_SECS));
+        b2.read_conn(&b"9 11\n8 10 77\n0 0 -5\n"[..]).map_err(|e| format!("first conn: {:?}", e))?;
+        b2.read_conn(matrix).map_err(|e| format!("conn: {:?}", e))?;
+        b2.read_lexicon(csv_a).map_err(|e| format!("lexicon: {:?}", e))?;
+        b2.read_lexicon(csv_b).map_err(|e| format!("lexicon: {:?}", e))?;
+        b2.resolve().map_err(|e| format!("resolve: {:?}", e))?;
+        return b2.compile(w).map_err(|e| format!("compile: {:?}", e));
+    }
     b.read_lexicon(csv_a).map_err(|e| format!("lexicon: {:?}", e))?;
     if seq == 7 {
         b.read_lexicon(csv_b).map_err(|e| format!("lexicon: {:?}", e))?;
@@ -579,12 +590,13 @@ pub fn run(ctx: &Ctx, rep: &mut Report) {
             let cut = 1 + rng.below(lex.entries.len() - 1);
             let part = |r: std::ops::Range<usize>| lex.entries[r].iter().map(|e| lex.row_csv(e, None) + "\n").collect::<String>();
             let (ca, cb) = (part(0..cut), part(cut..lex.entries.len()));
-            for seq in [5u8, 6, 7] {
+            for seq in [5u8, 6, 7, 8] {
                 rep.eval();
                 let mut sink = Vec::new();
                 let what = match seq {
                     5 => "read_lexicon(part 1), resolve(), read_lexicon(part 2), compile()",
                     6 => "read_lexicon(part 1), resolve(), read_lexicon(part 2), resolve(), compile()",
+                    8 => "read_conn(a larger 9x11 matrix), read_conn(matrix), read_lexicon, resolve(), compile()",
                     _ => "read_conn(matrix), read_conn(smaller matrix whose text breaks off; error ignored), read_lexicon, resolve(), compile()",
                 };
                 let scen = || json!({"world_index": wi, "call_sequence": what, "matrix": mtext, "lexicon_part_1": ca, "lexicon_part_2": cb});
@@ -592,12 +604,20 @@ pub fn run(ctx: &Ctx, rep: &mut Report) {
                     Err(p) => rep.violation("compile_panic", &p.site, &format!("call sequence {}: {}", what, p.msg), "", scen()),
                     Ok(Err(e)) => {
                         rep.count("longer_call_sequences_rejected", 1);
-                        if seq == 6 {
+                        if seq == 6 || seq == 8 {
                             rep.violation("valid_input_rejected", "DictBuilder::compile", &format!("call sequence {} fails although the same rows compile in one piece: {}", what, clip(&e, 200)), "", scen());
                         }
                     }
                     Ok(Ok(())) => {
                         rep.count("longer_call_sequences_accepted", 1);
+                        if seq == 8 {
+                            // nothing of the first matrix may survive: same bytes as the plain compilation
+                            let mut plain = Vec::new();
+                            if compile_to(mtext.as_bytes(), csv.as_bytes(), &mut plain).is_ok() && plain != sink {
+                                rep.violation("emitted_dictionary_does_not_load", "DictBuilder::compile", &format!("call sequence {} writes {} bytes, the plain sequence {}", what, sink.len(), plain.len()), "", scen());
+                                continue;
+                            }
+                        }
                         if let Err((kind, site, msg)) = arbiter(&res, &sink, &[], &keys, false, rep) {
                             rep.violation(&kind, &site, &format!("call sequence {} reports success: {}", what, msg), "", scen());
                         }
